@@ -28,7 +28,8 @@ RULE = ("EVERY class x EVERY declared constraint (required child, at-most-one / 
         "pair; duplicate each non-repeatable child; repeated child re-appearing after a later sibling; foreign aggregate / own sub-aggregate "
         "type / non-str as list member; unknown keyword. A case = (class, constraint, route, variant)")
 ASSUMPTIONS = ["constraints derived by ref_decl.py's own MRO walk; validity of base instances from the generator",
-               "'rejected' = any exception; UNSPECIFIED: negative integers vs digit limits, custom validate_args rules beyond the listed kinds",
+               "'rejected' = any exception; the digit limit of an integer applies to its magnitude (sign not counted); UNSPECIFIED: custom validate_args rules beyond the listed kinds",
+               "enumerated value sets are also compared with vf/oracles/spec_table.json (frozen copy of the reviewed declarations): a token the model accepts beyond it is offered as a foreign token",
                "on the etree route a foreign TAG is an unknown tag (C07: skipped), so foreign list members are judged on the kwargs route only"]
 LEVEL_TEXT = ("Per-constraint exhaustive exploration: the constraint set is finite (~2100 children, ~120 groups) and every constraint is "
               "violated once per route and met exactly at its boundary every run; the independent validator additionally watches every instance "
